@@ -32,6 +32,9 @@ def main(argv=None) -> int:
         program = Program(args.root)
         ctx = Ctx(pid, args.tier, program, args.root, seed)
         mod.run(ctx)
+        if args.tier == "thorough":
+            from . import thorough
+            thorough.extra(ctx, args)
         rc = finish(ctx)
         if args.replay:
             hit = [o for o in ctx.obligations if o.rule == rec.get("rule") and o.construct == rec.get("construct")]
